@@ -79,6 +79,22 @@ def gate_by_helper(P, B, bb):
     return None
 
 
+def is_checked_identity(P, fn):
+    """fn(x) -> Result<T, _> that returns T::try_from(x) (possibly with the error mapped): the value is x or the call fails"""
+    HB = P.B(fn)
+    if HB is None or HB.b['argc'] != 1:
+        return False
+    tf = [(bb, t) for bb, t in HB.calls() if any(n.endswith('::try_from') or n.endswith('::try_into') for n in callee_names(t))]
+    if len(tf) != 1:
+        return False
+    bb, t = tf[0]
+    if HB.origin(t['args'][0]) != ('arg', 1, ()):
+        return False
+    d = HB.derived_locals([t['dst']['l']]) | {t['dst']['l']}
+    others = [n for b2, t2 in HB.calls() for n in callee_names(t2) if b2 != bb]
+    return 0 in d and all(n.endswith('::map_err') or n.endswith('::ok_or') or n.endswith('::ok_or_else') for n in others)
+
+
 def param_of(B, op):
     base, projs = unwrap(B.origin(op))
     for p in projs:
@@ -186,9 +202,23 @@ def run(ctx):
             return []
         seqs, _ = success_sequences(B, ev)
         shapes = {'pt-ctl': 0, 'pt-ctl+payload': 0, 'hdr-ctl': 0, 'hdr-ctl+payload': 0, 'other': []}
+        # helpers of the crate that only convert a length with try_from (checked identity): seen through, like an `as` cast
+        ident = {n.rsplit('::', 1)[1] for bb, t in B.calls() for n in callee_names(t) if n.startswith('edp_client::') and is_checked_identity(P, n)} | {'try_from', 'try_into'}
+
+        def strip_conv(d_):
+            prev = None
+            while prev != d_:
+                prev = d_
+                m_ = re.fullmatch(r'(?:%s)\((?P<x>.*)\)\?' % '|'.join(sorted(re.escape(x) for x in ident)), d_)
+                if m_:
+                    d_ = m_.group('x')
+                m_ = re.fullmatch(r'\((?P<x>.*) as u32\)', d_)
+                if m_:
+                    d_ = m_.group('x')
+            return d_
         for s in seqs:
             flat = [e for e in s if e and e[0] != 'flush']
-            desc = ' '.join('%s(%s)' % (e[0], e[1]) for e in flat)
+            desc = ' '.join('%s(%s)' % (e[0], ('(%s as u32)' % strip_conv(str(e[1]))) if e[0] == 'u32' else e[1]) for e in flat)
             m_pt1 = re.fullmatch(r'u32\(\(Add\(1,len\((?P<c>.+?)\)\) as u32\)\) u8\(112\) bytes\((?P<c2>.+?)\)', desc)
             m_pt2 = re.fullmatch(r'u32\(\(Add\(Add\(1,len\((?P<c>.+?)\)\),len\((?P<p>.+?)\)\) as u32\)\) u8\(112\) bytes\((?P<c2>.+?)\) bytes\((?P<p2>.+)\)', desc)
             m_h = re.fullmatch(r'u32\(\(len\((?P<e>.+?)\) as u32\)\) bytes\((?P<e2>.+?)\) bytes\((?P<buf>.+)\)', desc)
@@ -303,6 +333,19 @@ def run(ctx):
             else:
                 ctx.bad('C07.4-exclusive-writer', inst, 'the connection mutex guard is not held across the awaited send (held=%s, receiver-from-guard=%s): frames of concurrent senders may interleave' % (held, from_guard),
                         ctx.where(Bn, sb), key='LOCK:%s:%s' % (Bn.path, callee_names(st)[0].rsplit('::', 1)[1]))
+
+    # the length prefix is the real length
+    ctx.rule('C07.3-prefix-not-truncated', 'the 4-byte length prefix of a frame is the length of what follows: no narrowing cast of a length in the send path without a guard (a frame too long for the prefix is refused)', floor=1)
+    from ..families import check_casts
+    SB = P.B(CONN + 'send_control_message::{closure#0}')
+    if ctx.anchor(SB is not None, CONN + 'send_control_message'):
+        before = len(ctx.records)
+        n_c = check_casts(ctx, SB, 'C07.3-prefix-not-truncated', include_float=False)
+        helpers = sorted({n for bb, t in SB.calls() for n in callee_names(t) if n.startswith('edp_client::connection::') and n in ctx.F.bodies and 'len' in n.rsplit('::', 1)[-1]})
+        for h in helpers:
+            check_casts(ctx, P.B(h), 'C07.3-prefix-not-truncated', include_float=False)
+        if len(ctx.records) == before:
+            ctx.ok('C07.3-prefix-not-truncated', 'send_control_message', 'no narrowing cast; lengths converted through %s' % ([h.rsplit('::', 1)[1] for h in helpers] or 'try_from'), ctx.where(SB))
 
     # ---------------- dependencies outside connection.rs -----------------------------------------------------------------
     # (a) "connected" must mean "the peer proved it knows the cookie": the state gate above is only as good as the place that sets Connected
